@@ -43,3 +43,15 @@ func verifRelayFromSync(src *SyncMap, dst *ShardedMap, w io.Writer, r io.Reader)
 
 	return n, m, err
 }
+
+// verifRelayOf: the relay step between two generic caches.
+func verifRelayOf[V any](src, dst *ShardedMapOf[V], w io.Writer, r io.Reader) (int, int, error) {
+	n, err := src.Dump(w)
+	if err != nil {
+		return n, 0, err
+	}
+
+	m, err := dst.Restore(r)
+
+	return n, m, err
+}
